@@ -77,6 +77,8 @@ def _emit_fn(gen, root, fn, canary_false=False):
             body = X.r21_for_ref_iter(body, fired)
         if 'R22' in rules_:
             body = X.r22_iter_position(body, fired)
+        if 'R24' in rules_:
+            body = X.r24_explicit_else(body, fired)
         if gtok and gtok.get('callees'):
             body = X.r23_ghost_token_calls(body, fired, gtok['callees'], gtok['arg'])
         for (a, b) in fn.body_subst:
@@ -325,7 +327,10 @@ def generate(unit, root, canary=False):
     _emit(gen, 'verus! {')
     for p in unit.preludes:
         _emit(gen, '// ===== prelude: %s (hand-written model / spec; assumptions are listed in the evidence)' % p)
-        _emit(gen, open(os.path.join(HERE, 'prelude', p)).read())
+        ptxt = open(os.path.join(HERE, 'prelude', p)).read()
+        for (a, b) in getattr(unit, 'prelude_subst', ()):
+            ptxt = ptxt.replace(a, b)
+        _emit(gen, ptxt)
 
     def walk(items):
         for it in items:
